@@ -152,7 +152,8 @@ def _walk_fallback(rw):
     fall-back are recognised:
       * a for ... else block;
       * a sentinel: `x = None` before the loop, `x = <entry>` in the breaking branch and, as the
-        next statement after the loop, `if x is None: x = <...>[-1]`.
+        next statement after the loop, `if x is None: x = <...>[-1]`;
+      * a default: `x = len(<list>) - 1` before the loop and `x = <index>` in the breaking branch.
     (That the selected entry IS what the model selects is established by the translator tie,
     harness/translate_small.py + SmallGenProofsWalk.v; this constant only picks the variant of
     the model the correspondence runs.)"""
@@ -181,6 +182,15 @@ def _walk_fallback(rw):
                 none_before = {t.id for prev in blk[:i] if isinstance(prev, ast.Assign)
                                and isinstance(prev.value, ast.Constant) and prev.value.value is None
                                for t in prev.targets if isinstance(t, ast.Name)}
+                # third spelling: the default is the LAST index, assigned before the loop
+                # (`x = len(..) - 1` ... `x = index; break` ... x used after the loop)
+                for prev in blk[:i]:
+                    if isinstance(prev, ast.Assign) and len(prev.targets) == 1 and isinstance(prev.targets[0], ast.Name) \
+                            and prev.targets[0].id in set_in_branch and isinstance(prev.value, ast.BinOp) \
+                            and isinstance(prev.value.op, ast.Sub) and isinstance(prev.value.right, ast.Constant) \
+                            and prev.value.right.value == 1 and isinstance(prev.value.left, ast.Call) \
+                            and isinstance(prev.value.left.func, ast.Name) and prev.value.left.func.id == "len":
+                        return True
                 nxt = blk[i + 1] if i + 1 < len(blk) else None
                 if not (isinstance(nxt, ast.If) and not nxt.orelse and isinstance(nxt.test, ast.Compare)
                         and isinstance(nxt.test.left, ast.Name) and len(nxt.test.ops) == 1
